@@ -108,6 +108,7 @@ pub fn lib_hand() -> Vec<PkgSpec> {
         PkgSpec::from_component("h:consumer", Some("0.2.0"), wat(HAND_CONSUMER).unwrap()),
         PkgSpec::from_component("h:restype", None, wat(HAND_RESTYPE).unwrap()),
         PkgSpec::from_component("h:value", None, wat(HAND_VALUE).unwrap()),
+        PkgSpec::from_component("h:tyexp", None, wat(crate::c02::TY_EXPORTER).unwrap()),
     ]
 }
 
@@ -251,13 +252,15 @@ pub fn universes(tier: Tier) -> Vec<(&'static str, Universe, Vec<Vec<Op>>)> {
     // LibHand
     {
         let u = universe_from("C01", lib_hand(), &[(1, "m"), (1, "c"), (2, "mk"), (3, "v")], None, tier);
-        let reg: Vec<Op> = (0..4).map(Op::Register).collect();
+        let reg: Vec<Op> = (0..5).map(Op::Register).collect();
         let with = |ops: Vec<Op>| -> Vec<Op> { reg.iter().cloned().chain(ops).collect() };
         let seeds = vec![
             with(vec![]),
             with(vec![Op::Instantiate(0), Op::Instantiate(1)]),
             with(vec![Op::Instantiate(2)]),
             with(vec![Op::Instantiate(3)]),
+            // exported types and a function over an exported resource
+            with(vec![Op::Instantiate(4), Op::Alias(0, s("r")), Op::Alias(0, s("mk"))]),
         ];
         out.push(("LibHand", u, seeds));
     }
